@@ -52,6 +52,27 @@ func (c17) Gen(tier string, seed int64, emit func([]Ev)) {
 	for i := 0; i < n; i++ {
 		emit(c17History(r))
 	}
+	// a very large unit (several hundred full packets, more than 64 KiB of payload), then Reset and the usual
+	// questions: a reset accumulator behaves like a new one however much it held before
+	for _, variant := range []int{0, 1} {
+		pred := Ev{"done": 0, "fail": 0}
+		var h []Ev
+		total := 380
+		if variant == 1 {
+			// the predicate holds at the very end: the accumulator is complete when it is reset
+			pred["done"] = 184 * total
+		}
+		for s := 0; s < total; s++ {
+			p := mkPkt(r, 0x100, s, s == 0, true, -1)
+			h = append(h, Ev{"op": "write", "pkt": B(p[:]), "pred": pred})
+		}
+		h = append(h, Ev{"op": "reset", "pred": pred})
+		p1 := mkPkt(r, 0x100, total, false, true, 150)
+		p2 := mkPkt(r, 0x100, total+1, true, true, 150)
+		p3 := mkPkt(r, 0x100, total+2, false, true, 150)
+		h = append(h, Ev{"op": "write", "pkt": B(p1[:]), "pred": pred}, Ev{"op": "write", "pkt": B(p2[:]), "pred": pred}, Ev{"op": "write", "pkt": B(p3[:]), "pred": pred})
+		emit(h)
+	}
 }
 
 // c17History draws one accumulator history from r (which may be driven by a fuzzer's bytes).
